@@ -158,7 +158,12 @@ func forwarders(c *Check, rule, typeSpec string) {
 						}
 					}
 					if got != want {
-						ok = false
+						// normal form of `return X`: `if X != nil { return X }; return nil`
+						split := got == "nil" && ri == len(r.Results)-1 && isErrorType(r.Results[ri].Type()) &&
+							c.P.FA(fn).PathCondStrings(b)["("+want+" == nil)"]
+						if !split {
+							ok = false
+						}
 					}
 				}
 			}
